@@ -9,8 +9,16 @@ pub mod refmodel;
 pub mod util;
 
 #[cfg(kani)]
+pub mod vsign;
+#[cfg(kani)]
 mod c04;
 #[cfg(kani)]
 mod c05;
+#[cfg(kani)]
+mod c12;
+#[cfg(kani)]
+pub mod c13;
+#[cfg(kani)]
+mod c14;
 #[cfg(kani)]
 mod selftest;
